@@ -265,10 +265,28 @@ fn gen_entry(rng: &mut Rng, idx: u64) -> AsEntry {
 }
 
 struct Honest {
+    /// the segment as the verifier holds it (built in-process, or converted from `rpc`)
     seg: SignedPathSegment,
+    /// the segment as the signer sends it (its `segment_info` are the bytes the signer hashed)
+    rpc: RpcSeg,
+    /// what the signer signed: per entry (hb, sig, bytes of `info ‖ preceding chunks`, key)
+    set: SignedSet,
     keys: Vec<SigningKey>,
     table: KeyTable,
     with_key_ids: bool,
+}
+impl Honest {
+    /// a segment signed in-process by the repo's own signing code
+    fn of_built(seg: SignedPathSegment, keys: Vec<SigningKey>, table: KeyTable, with_key_ids: bool) -> Honest {
+        let set = signed_set(&seg, &keys);
+        let mut rpc = seg.clone().into_rpc();
+        // the signer hashed `info.encoded`; that is what it must send
+        rpc.segment_info = seg.info().encoded.clone();
+        Honest { seg, rpc, set, keys, table, with_key_ids }
+    }
+    fn var(&self) -> Var {
+        Var { seg: self.seg.clone(), raw_info: self.rpc.segment_info.clone() }
+    }
 }
 
 fn key_id_for(local: u64, idx: usize) -> KeyId {
@@ -319,7 +337,7 @@ fn build_honest(rng: &mut Rng, entries: Vec<AsEntry>, with_key_ids: bool, mac_up
         })
         .expect("signing")
     };
-    Honest { seg, keys, table, with_key_ids }
+    Honest::of_built(seg, keys, table, with_key_ids)
 }
 
 /// entries of a segment that traverses one AS twice: positions `k1 < k2` share the local ISD-AS
@@ -339,17 +357,42 @@ fn gen_repeated_entries(rng: &mut Rng, n: usize, equal_entries: bool) -> (Vec<As
     (entries, k1, k2)
 }
 
+/// protobuf encodings of `SegmentInformation { timestamp, segment_id }` that every protobuf decoder reads as
+/// the same message: the canonical one (what `SegmentInfo::new` / prost / Go produce) and equivalent
+/// non-canonical ones (unknown field, other field order, non-minimal varint, explicit zero, duplicated field)
+fn info_encodings(ts: u32, seg_id: u16) -> Vec<(&'static str, Vec<u8>)> {
+    use prost::encoding::encode_varint;
+    let canon = sciparse::segment::SegmentInfo::new(ts, seg_id).encoded;
+    let f = |tag: u8, v: u64| {
+        let mut b = vec![tag];
+        encode_varint(v, &mut b);
+        b
+    };
+    let (f1, f2) = (f(0x08, ts as u64), f(0x10, seg_id as u64));
+    let mut padded = f(0x08, ts as u64);
+    *padded.last_mut().unwrap() |= 0x80;
+    padded.push(0x00);
+    vec![
+        ("canonical", canon.clone()),
+        ("unknown varint field 3 appended", [canon.clone(), vec![0x18, 0x00]].concat()),
+        ("unknown bytes field 3 prepended", [vec![0x1a, 0x01, 0x41], canon.clone()].concat()),
+        ("fields in the order 2, 1 (zero values written)", [f2.clone(), f1.clone()].concat()),
+        ("non-minimal varint timestamp", [padded, f2.clone()].concat()),
+        ("timestamp field twice (last wins)", [f(0x08, ts as u64 ^ 1), f1.clone(), f2.clone()].concat()),
+        ("explicit values incl. zeros, fields 1, 2", [f1, f2].concat()),
+    ]
+}
+
 /// A segment signed *by position* with `SignedMessage::sign` directly – what a conforming implementation
-/// (e.g. the Go control service) produces: entry i is signed over `info ‖ (hb, sig) of entries 0..i-1`.
-/// Returned in the RPC form together with the honest signer's view.
-fn reference_signed(rng: &mut Rng, entries: &[AsEntry]) -> Option<(RpcSeg, SignedSet, Vec<SigningKey>, KeyTable)> {
+/// (e.g. the Go control service) produces: entry i is signed over `info ‖ (hb, sig) of entries 0..i-1`, where
+/// `info` are the segment-info bytes the signer sends (`info_bytes`; canonical when `None`).
+/// The verifier's value is obtained from the RPC form.
+fn reference_signed(rng: &mut Rng, entries: &[AsEntry], ts: u32, seg_id: u16, info_bytes: Option<Vec<u8>>) -> Option<Honest> {
     let n = entries.len();
     let owner: Vec<usize> = (0..n).map(|i| (0..=i).find(|&j| entries[j].local == entries[i].local).unwrap()).collect();
     let own_keys: Vec<SigningKey> = (0..n).map(|_| gen_key(rng)).collect();
     let keys: Vec<SigningKey> = (0..n).map(|i| own_keys[owner[i]].clone()).collect();
-    let ts = rng.next() as u32;
-    let seg_id = rng.next() as u16;
-    let info = sciparse::segment::SegmentInfo::new(ts, seg_id).encoded;
+    let info = info_bytes.unwrap_or_else(|| sciparse::segment::SegmentInfo::new(ts, seg_id).encoded);
     let mut table = KeyTable { by_id: HashMap::new(), by_local: HashMap::new() };
     let mut rpc = RpcSeg { segment_info: info.clone(), as_entries: vec![] };
     let mut items = vec![];
@@ -368,7 +411,8 @@ fn reference_signed(rng: &mut Rng, entries: &[AsEntry]) -> Option<(RpcSeg, Signe
         ad.extend_from_slice(&sm.signature);
         rpc.as_entries.push(pb::control_plane::v1::AsEntry { signed: Some(sm.into_rpc()), unsigned: None });
     }
-    Some((rpc, SignedSet { items }, keys, table))
+    let seg = from_rpc_seg(rpc.clone()).ok()?.ok()?;
+    Some(Honest { seg, rpc, set: SignedSet { items }, keys, table, with_key_ids: true })
 }
 
 // ------------------------------------------------------------------------------------------------
@@ -480,34 +524,37 @@ fn validate_entry(
 }
 
 /// the honest signer's view: which (hb, sig) pairs exist and over which bytes each was signed
+#[derive(Clone)]
 struct SignedSet {
     /// (hb, sig) -> (position, bytes of `info ‖ chunks of the preceding entries`, verifying key)
     items: Vec<(Vec<u8>, Vec<u8>, Vec<u8>, VerifyingKey)>,
 }
-fn assoc_bytes(seg: &SignedPathSegment, k: usize) -> Vec<u8> {
-    let mut v = seg.info().encoded.clone();
+/// `info ‖ (hb, sig) of the first k entries`; `info` = the segment-info bytes **as received** (the RPC
+/// field), not whatever the conversion stored
+fn assoc_bytes(info: &[u8], seg: &SignedPathSegment, k: usize) -> Vec<u8> {
+    let mut v = info.to_vec();
     for e in &seg.as_entries[..k] {
         v.extend_from_slice(&e.signature().header_and_body);
         v.extend_from_slice(&e.signature().signature);
     }
     v
 }
-fn signed_set(h: &Honest) -> SignedSet {
-    let items = h
-        .seg
+fn signed_set(seg: &SignedPathSegment, keys: &[SigningKey]) -> SignedSet {
+    let items = seg
         .as_entries
         .iter()
         .enumerate()
         .map(|(j, e)| {
-            (e.signature().header_and_body.clone(), e.signature().signature.clone(), assoc_bytes(&h.seg, j), *h.keys[j].verifying_key())
+            (e.signature().header_and_body.clone(), e.signature().signature.clone(), assoc_bytes(&seg.info().encoded, seg, j), *keys[j].verifying_key())
         })
         .collect();
     SignedSet { items }
 }
 /// spec: must entry `i` of `seg` be accepted when `offered` is the key the provider hands out?
-fn expected_accept(set: &SignedSet, seg: &SignedPathSegment, i: usize, offered: Option<&VerifyingKey>) -> bool {
+fn expected_accept(set: &SignedSet, var: &Var, i: usize, offered: Option<&VerifyingKey>) -> bool {
+    let seg = &var.seg;
     let sm = seg.as_entries[i].signature();
-    let ad = assoc_bytes(seg, i);
+    let ad = assoc_bytes(&var.raw_info, seg, i);
     set.items.iter().any(|(hb, sig, signed_ad, vk)| {
         *hb == sm.header_and_body && *sig == sm.signature && *signed_ad == ad && offered.map(|k| k == vk).unwrap_or(false)
     })
@@ -515,6 +562,10 @@ fn expected_accept(set: &SignedSet, seg: &SignedPathSegment, i: usize, offered: 
 
 // ------------------------------------------------------------------------------------------------
 // stream `seg`: honest segments and their tampered variants
+
+fn rng_ts(rng: &mut Rng) -> u32 {
+    if rng.chance(1, 5) { *rng.pick(&[0u32, 1, u32::MAX]) } else { rng.next() as u32 }
+}
 
 struct Tally {
     validations: u64,
@@ -540,6 +591,21 @@ fn seg_brief(seg: &SignedPathSegment) -> serde_json::Value {
     })
 }
 
+/// a (possibly tampered) segment as the verifier holds it, together with the `segment_info` bytes it was
+/// received with (for a segment built in-process: the bytes the signer hashed, `info.encoded`)
+struct Var {
+    seg: SignedPathSegment,
+    raw_info: Vec<u8>,
+}
+/// RPC form → verifier's value (None: conversion error or panic)
+fn conv(rpc: pb::control_plane::v1::PathSegment) -> Option<Var> {
+    let raw_info = rpc.segment_info.clone();
+    match from_rpc_seg(rpc) {
+        Ok(Ok(seg)) => Some(Var { seg, raw_info }),
+        _ => None,
+    }
+}
+
 /// validate the given positions of a (possibly tampered) segment; compare with the model; apply the spec oracle
 #[allow(clippy::too_many_arguments)]
 fn check_positions(
@@ -547,13 +613,14 @@ fn check_positions(
     detail: &str,
     h: &Honest,
     set: &SignedSet,
-    var: &SignedPathSegment,
+    vr: &Var,
     positions: &[usize],
     subst: Option<&VerifyingKey>,
     mut lean: Option<&mut Lean>,
     rep: &mut Report,
     tally: &mut Tally,
 ) {
+    let var = &vr.seg;
     let cls = entry_classes(var);
     for &i in positions {
         if i >= var.as_entries.len() {
@@ -570,7 +637,14 @@ fn check_positions(
         );
         rep.case(&canon, reached_crypto);
         let case = || json!({"kind": kind, "detail": detail, "position": i, "segment": seg_brief(var),
-                             "rpc": hex(&var.clone().into_rpc().encode_to_vec())});
+                             "received_info": hex(&vr.raw_info),
+                             "keys": (0..var.as_entries.len()).map(|j| offered_key(var, j, &h.table, None).map(|k| hex(k.to_encoded_point(true).as_bytes())).unwrap_or("-".into())).collect::<Vec<_>>(),
+                             "rpc": hex(&RpcSeg { segment_info: vr.raw_info.clone(), as_entries: var.clone().into_rpc().as_entries }.encode_to_vec())});
+        if i == 0 && (kind == "info-encoding" || kind == "info-reencoded") && std::env::var("HX_EMIT").is_ok() {
+            let c = case();
+            eprintln!("EMIT {kind} | {detail} | seg-expect-case {} {} {}", if kind == "info-encoding" { "accept" } else { "reject" }, c["rpc"].as_str().unwrap(),
+                      c["keys"].as_array().unwrap().iter().map(|k| k.as_str().unwrap().to_string()).collect::<Vec<_>>().join(" "));
+        }
         if let Some(m) = &v.model {
             tally.model_compared += 1;
             rep.traces += 1;
@@ -588,7 +662,7 @@ fn check_positions(
             continue;
         }
         let offered = offered_key(var, i, &h.table, subst);
-        let expected = expected_accept(set, var, i, offered.as_ref());
+        let expected = expected_accept(set, vr, i, offered.as_ref());
         if accepted && !expected {
             if cls[i] != i {
                 rep.spec_fail(
@@ -639,17 +713,30 @@ struct SegOpts {
 }
 
 fn seg_stream_one(h: &Honest, foreign: &Honest, rng: &mut Rng, lean: &mut Lean, rep: &mut Report, tally: &mut Tally, o: &SegOpts) {
-    let set = signed_set(h);
+    let set = h.set.clone();
     let n = h.seg.as_entries.len();
     let all: Vec<usize> = (0..n).collect();
     rep.hit(&format!("honest segment entries={n} peers={} key_ids={}", h.seg.as_entries.iter().map(|e| e.peer_entries.len()).sum::<usize>(), h.with_key_ids));
 
     // 1. the honest segment validates at every position
-    check_positions("honest", "", h, &set, &h.seg, &all, None, Some(lean), rep, tally);
+    check_positions("honest", "", h, &set, &h.var(), &all, None, Some(lean), rep, tally);
 
-    // 2. RPC round trip of the honest segment (spec) – value equality of the real types
-    let rpc = h.seg.clone().into_rpc();
-    match from_rpc_seg(rpc.clone()) {
+    // 2. RPC round trip of the honest segment (spec) – value equality of the real types; what `into_rpc`
+    //    sends as segment info must be the bytes the entries were signed over
+    let rpc = h.rpc.clone();
+    match catch(|| h.seg.clone().into_rpc()) {
+        Ok(sent) if sent.segment_info != rpc.segment_info => rep.spec_fail(
+            "C18:segment-roundtrip:info-bytes",
+            "into_rpc does not send the segment-info bytes the entries were signed over",
+            json!({"signed_over": hex(&rpc.segment_info), "sent": hex(&sent.segment_info)}),
+        ),
+        Ok(sent) => {
+            check_seg_to_rpc(&h.seg, &sent, lean, rep);
+            rep.hit("into_rpc sends the signed info bytes")
+        }
+        Err(_) => rep.spec_fail("C18:panic:segment-rpc", "into_rpc panicked", json!({"segment": seg_brief(&h.seg)})),
+    }
+    match from_rpc_seg(h.seg.clone().into_rpc()) {
         Ok(Ok(back)) => {
             if back != h.seg {
                 rep.spec_fail("C18:segment-roundtrip", "try_from_rpc(into_rpc(seg)) != seg for an honestly built segment", json!({"segment": seg_brief(&h.seg)}));
@@ -693,10 +780,12 @@ fn seg_stream_one(h: &Honest, foreign: &Honest, rng: &mut Rng, lean: &mut Lean, 
                 0 => "info".to_string(),
                 _ => format!("{}[{}]", if (b - 1) % 2 == 0 { "hb" } else { "sig" }, (b - 1) / 2),
             };
+            let raw_info = t.segment_info.clone();
             match from_rpc_seg(t) {
                 Err(_) => rep.spec_fail("C18:panic:segment-rpc", "try_from_rpc panicked on a bit-flipped segment", json!({"flip": what, "bit": bit})),
                 Ok(Err(e)) => rep.hit(&format!("flip {}: conversion error {}", what.split('[').next().unwrap(), rerr_label(&e))),
-                Ok(Ok(var)) => {
+                Ok(Ok(seg)) => {
+                    let var = Var { seg, raw_info };
                     // positions whose signed bytes (index form) contain the flipped blob, plus now and then all
                     let first = if b == 0 { 0 } else { (b - 1) / 2 };
                     let pos: Vec<usize> = if rng.chance(1, 16) { all.clone() } else { (first..n).collect() };
@@ -720,7 +809,7 @@ fn seg_stream_one(h: &Honest, foreign: &Honest, rng: &mut Rng, lean: &mut Lean, 
         }
         let mut t = rpc.clone();
         t.as_entries = p.iter().map(|&j| rpc.as_entries[j].clone()).collect();
-        if let Ok(Ok(var)) = from_rpc_seg(t) {
+        if let Some(var) = conv(t) {
             check_positions("permutation", &format!("{p:?}"), h, &set, &var, &all, None, Some(lean), rep, tally);
         }
     }
@@ -729,14 +818,14 @@ fn seg_stream_one(h: &Honest, foreign: &Honest, rng: &mut Rng, lean: &mut Lean, 
     for d in 0..n {
         let mut t = rpc.clone();
         t.as_entries.remove(d);
-        if let Ok(Ok(var)) = from_rpc_seg(t) {
+        if let Some(var) = conv(t) {
             check_positions("truncation", &format!("entry {d} removed"), h, &set, &var, &all, None, Some(lean), rep, tally);
         }
     }
     for k in 0..n {
         let mut t = rpc.clone();
         t.as_entries.truncate(k);
-        if let Ok(Ok(var)) = from_rpc_seg(t) {
+        if let Some(var) = conv(t) {
             check_positions("truncation", &format!("prefix of {k}"), h, &set, &var, &all, None, Some(lean), rep, tally);
         }
     }
@@ -744,7 +833,7 @@ fn seg_stream_one(h: &Honest, foreign: &Honest, rng: &mut Rng, lean: &mut Lean, 
     for k in 1..n {
         let mut t = rpc.clone();
         t.as_entries.drain(..k);
-        if let Ok(Ok(var)) = from_rpc_seg(t) {
+        if let Some(var) = conv(t) {
             check_positions("truncation", &format!("first {k} entries dropped"), h, &set, &var, &all, None, Some(lean), rep, tally);
         }
     }
@@ -757,7 +846,7 @@ fn seg_stream_one(h: &Honest, foreign: &Honest, rng: &mut Rng, lean: &mut Lean, 
             }
             let mut t = rpc.clone();
             t.as_entries.insert(p, rpc.as_entries[j].clone());
-            if let Ok(Ok(var)) = from_rpc_seg(t) {
+            if let Some(var) = conv(t) {
                 let pos: Vec<usize> = (0..=n).collect();
                 check_positions("extension-replay", &format!("copy of entry {j} inserted at {p}"), h, &set, &var, &pos, None, Some(lean), rep, tally);
             }
@@ -767,12 +856,12 @@ fn seg_stream_one(h: &Honest, foreign: &Honest, rng: &mut Rng, lean: &mut Lean, 
         let frpc = foreign.seg.clone().into_rpc();
         let mut merged = h.table.clone();
         merged.by_id.extend(foreign.table.by_id.clone());
-        let hx = Honest { seg: h.seg.clone(), keys: h.keys.clone(), table: merged, with_key_ids: h.with_key_ids };
+        let hx = Honest { seg: h.seg.clone(), rpc: h.rpc.clone(), set: h.set.clone(), keys: h.keys.clone(), table: merged, with_key_ids: h.with_key_ids };
         for fe in frpc.as_entries.iter().take(2) {
             let mut t = rpc.clone();
             let p = rng.range(0, n as u64) as usize;
             t.as_entries.insert(p, fe.clone());
-            if let Ok(Ok(var)) = from_rpc_seg(t) {
+            if let Some(var) = conv(t) {
                 let pos: Vec<usize> = (0..=n).collect();
                 check_positions("extension-foreign", &format!("entry of another segment inserted at {p}"), &hx, &set, &var, &pos, None, Some(lean), rep, tally);
             }
@@ -784,9 +873,23 @@ fn seg_stream_one(h: &Honest, foreign: &Honest, rng: &mut Rng, lean: &mut Lean, 
     for i in 0..n {
         let other = *h.keys[(i + 1) % n].verifying_key();
         if n > 1 {
-            check_positions("key-substitution", "key of the next AS", h, &set, &h.seg, &[i], Some(&other), Some(lean), rep, tally);
+            check_positions("key-substitution", "key of the next AS", h, &set, &h.var(), &[i], Some(&other), Some(lean), rep, tally);
         }
-        check_positions("key-substitution", "fresh key", h, &set, &h.seg, &[i], Some(&fresh), Some(lean), rep, tally);
+        check_positions("key-substitution", "fresh key", h, &set, &h.var(), &[i], Some(&fresh), Some(lean), rep, tally);
+    }
+
+    // 9. the received segment info replaced by another protobuf encoding of the same (timestamp, segment id):
+    //    a change of the header bytes ⇒ every entry must be rejected (all of them are signed over the info)
+    for (what, enc) in info_encodings(h.seg.info().timestamp, h.seg.info().segment_id) {
+        if enc == rpc.segment_info {
+            continue;
+        }
+        let mut t = rpc.clone();
+        t.segment_info = enc;
+        match conv(t) {
+            Some(var) => check_positions("info-reencoded", what, h, &set, &var, &all, None, Some(lean), rep, tally),
+            None => rep.hit("info-reencoded: does not convert"),
+        }
     }
 
     // 8. chunk-boundary shift (concatenation ambiguity, not a defect): the first two bytes of entry 0's DER
@@ -796,11 +899,11 @@ fn seg_stream_one(h: &Honest, foreign: &Honest, rng: &mut Rng, lean: &mut Lean, 
         let s0 = t.as_entries[0].signed.as_mut().unwrap();
         let moved: Vec<u8> = s0.signature.drain(..2).collect();
         s0.header_and_body.extend_from_slice(&moved);
-        if let Ok(Ok(var)) = from_rpc_seg(t) {
+        if let Some(var) = conv(t) {
             let before = rep.spec_failures.len();
             check_positions("boundary-shift", "2 bytes moved from sig[0] to hb[0]", h, &set, &var, &all, None, Some(lean), rep, tally);
             if rep.spec_failures.len() == before {
-                let ok1 = var.as_entries[1].validate_signature(|kid| h.table.resolve(kid, var.as_entries[1].local.to_u64()).result(), &var).is_ok();
+                let ok1 = var.seg.as_entries[1].validate_signature(|kid| h.table.resolve(kid, var.seg.as_entries[1].local.to_u64()).result(), &var.seg).is_ok();
                 rep.hit(if ok1 { "boundary-shift: later entry still accepted (concatenation ambiguity)" } else { "boundary-shift: later entry rejected" });
             }
         } else {
@@ -1113,6 +1216,29 @@ fn segrpc_request(r: &RpcSeg) -> String {
     s
 }
 
+/// `into_rpc` of a segment: implementation vs model (`segToRpc`)
+fn check_seg_to_rpc(v: &SignedPathSegment, sent: &RpcSeg, lean: &mut Lean, rep: &mut Report) {
+    let reenc = pb::control_plane::v1::SegmentInformation { timestamp: v.info().timestamp as i64, segment_id: v.info().segment_id as u32 }.encode_to_vec();
+    let mut req = format!("segto {} {} {} {} {}", v.info().timestamp, v.info().segment_id, hex(&v.info().encoded), hex(&reenc), v.as_entries.len());
+    for e in &v.as_entries {
+        req.push_str(&format!(" {} {}", hex(&e.signature().header_and_body), hex(&e.signature().signature)));
+    }
+    let mut imp = format!("{} {}", hex(&sent.segment_info), sent.as_entries.len());
+    for e in &sent.as_entries {
+        match &e.signed {
+            None => imp.push_str(" S0"),
+            Some(sm) => imp.push_str(&format!(" S1 {} {}", hex(&sm.header_and_body), hex(&sm.signature))),
+        }
+    }
+    let model = lean.ask(&req);
+    rep.traces += 1;
+    if lean.differs(&model, &imp) {
+        let cut = |s: &str| if s.len() > 200 { format!("{}…", &s[..200]) } else { s.to_string() };
+        rep.disagree("segment into_rpc", json!({"info": hex(&v.info().encoded), "timestamp": v.info().timestamp, "segment_id": v.info().segment_id}), &cut(&imp), &cut(&model));
+    }
+    rep.hit("segment into_rpc compared");
+}
+
 /// conversion of one RPC segment: implementation vs model + spec (no panic, result is stable under a round trip)
 fn check_segrpc(what: &str, r: &RpcSeg, lean: &mut Lean, rep: &mut Report) {
     let res = from_rpc_seg(r.clone());
@@ -1134,10 +1260,21 @@ fn check_segrpc(what: &str, r: &RpcSeg, lean: &mut Lean, rep: &mut Report) {
     rep.case(&format!("segrpc|{}", hex(&enc)), !r.as_entries.is_empty() && !imp.starts_with("err decode_info"));
     match res {
         Err(m) => rep.spec_fail("C18:panic:segment-rpc", &format!("SignedPathSegment::try_from_rpc panicked: {m}"), case()),
-        Ok(Ok(v)) => match from_rpc_seg(v.clone().into_rpc()) {
-            Ok(Ok(v2)) if v2 == v => {}
-            _ => rep.spec_fail("C18:segment-roundtrip", "a segment obtained from RPC does not survive into_rpc → try_from_rpc", case()),
-        },
+        Ok(Ok(v)) => {
+            let sent = v.clone().into_rpc();
+            check_seg_to_rpc(&v, &sent, lean, rep);
+            // spec: what is sent on is what was received (info bytes and signed messages; the `unsigned` part
+            // of the entries is not carried), and the value survives the round trip
+            let same_signed = sent.as_entries.len() == r.as_entries.len()
+                && sent.as_entries.iter().zip(&r.as_entries).all(|(a, b)| a.signed == b.signed);
+            if sent.segment_info != r.segment_info || !same_signed {
+                rep.spec_fail("C18:segment-roundtrip:info-bytes", "into_rpc(try_from_rpc(r)) does not carry the received segment-info bytes / signed messages", case());
+            }
+            match from_rpc_seg(sent) {
+                Ok(Ok(v2)) if v2 == v => {}
+                _ => rep.spec_fail("C18:segment-roundtrip", "a segment obtained from RPC does not survive into_rpc → try_from_rpc", case()),
+            }
+        }
         Ok(Err(_)) => {}
     }
 }
@@ -1211,10 +1348,15 @@ fn gen_segrpc(rng: &mut Rng, base: &RpcSeg) -> (String, RpcSeg) {
                 what.push("info segment id range".to_string());
             }
             2 => {
-                r.segment_info = match rng.below(3) {
+                r.segment_info = match rng.below(6) {
                     0 => vec![],
                     1 => { let l_ = rng.range(1, 12) as usize; rng.bytes(l_) },
-                    _ => vec![0x0a, 0x05, 1, 2],
+                    2 => vec![0x0a, 0x05, 1, 2],
+                    // valid protobuf, not the canonical encoding (also of zero values)
+                    _ => {
+                        let encs = info_encodings(if rng.chance(1, 4) { 0 } else { rng.next() as u32 }, if rng.chance(1, 4) { 0 } else { rng.next() as u16 });
+                        rng.pick(&encs[1..]).1.clone()
+                    }
                 };
                 what.push("info bytes".to_string());
             }
@@ -1662,11 +1804,11 @@ fn check_segments_page(rng: &mut Rng, pool: &[SignedPathSegment], rep: &mut Repo
 fn probe_findings(rng: &mut Rng, lean: &mut Lean, rep: &mut Report, tally: &mut Tally) {
     // (a) replayed entry appended: [A, B, C] -> [A, B, C, A]
     let h = gen_honest(rng, 3, 0);
-    let set = signed_set(&h);
-    let rpc = h.seg.clone().into_rpc();
+    let set = h.set.clone();
+    let rpc = h.rpc.clone();
     let mut t = rpc.clone();
     t.as_entries.push(rpc.as_entries[0].clone());
-    if let Ok(Ok(var)) = from_rpc_seg(t) {
+    if let Some(var) = conv(t) {
         check_positions("extension-replay", "probe: copy of entry 0 appended", &h, &set, &var, &[0, 1, 2, 3], None, Some(lean), rep, tally);
     }
     // (b) extensions are lost by the RPC round trip
@@ -1715,6 +1857,32 @@ fn run_corpus_line(l: &str, lean: &mut Lean, rep: &mut Report) -> bool {
             let (Some(s), Some(d), Some(b)) = (it.next().and_then(|x| x.parse::<u64>().ok()), it.next().and_then(|x| x.parse::<u64>().ok()), it.next().and_then(unhex)) else { return false };
             let Ok(r) = RpcPath::decode(b.as_slice()) else { return false };
             check_pathrpc("corpus", &r, IsdAsn::from(s), IsdAsn::from(d), lean, rep);
+            true
+        }
+        Some("seg-expect-case") => {
+            // `seg-expect-case accept|reject RPC KEY…`: a segment in RPC form (with the segment-info bytes as
+            // received) + the public key offered at each position; spec: every position accepted / rejected
+            let Some(expect) = it.next().and_then(|x| match x { "accept" => Some(true), "reject" => Some(false), _ => None }) else { return false };
+            let Some(b) = it.next().and_then(unhex) else { return false };
+            let Ok(r) = RpcSeg::decode(b.as_slice()) else { return false };
+            let keys: Vec<Option<VerifyingKey>> = it.map(|k| unhex(k).and_then(|b| VerifyingKey::from_sec1_bytes(&b).ok())).collect();
+            check_segrpc("corpus", &r, lean, rep);
+            let Some(var) = conv(r) else { return false };
+            if keys.len() != var.seg.as_entries.len() {
+                return false;
+            }
+            for i in 0..var.seg.as_entries.len() {
+                let kp = |_: &[u8]| keys[i].ok_or(ValidateError::KeyMissing("no key".into()));
+                let res = catch(|| var.seg.as_entries[i].validate_signature(kp, &var.seg));
+                let case = json!({"line": l, "position": i});
+                rep.case(&format!("corpus-expect|{l}|{i}"), true);
+                match res {
+                    Err(_) => rep.spec_fail("C18:panic:validate", "validate_signature panicked", case),
+                    Ok(Ok(())) if !expect => rep.spec_fail("C18:tamper-accepted", &format!("corpus: segment whose received bytes are not the signed bytes is accepted at position {i}"), case),
+                    Ok(Err(e)) if expect => rep.spec_fail("C18:authentic-rejected", &format!("corpus: authentic entry rejected at position {i}: {}", verr_label(&e)), case),
+                    Ok(_) => rep.hit(&format!("corpus expect {}: as expected", if expect { "accept" } else { "reject" })),
+                }
+            }
             true
         }
         Some("seg-validate-case") => {
@@ -1830,18 +1998,37 @@ fn main() {
         let o = SegOpts { exhaustive_flips: false, sampled_flips_per_blob: args.scale(4, 16), model_every: 1 };
         seg_stream_one(&h, &f, &mut rng, &mut lean, &mut rep, &mut tally, &o);
         if !equal {
-            if let Some((rpc, set, keys, table)) = reference_signed(&mut rng, &entries) {
-                match from_rpc_seg(rpc) {
-                    Ok(Ok(seg)) => {
-                        let all: Vec<usize> = (0..seg.as_entries.len()).collect();
-                        let hx = Honest { seg: seg.clone(), keys, table, with_key_ids: true };
-                        check_positions("reference-signed", "entries signed by position with SignedMessage::sign", &hx, &set, &seg, &all, None, Some(&mut lean), &mut rep, &mut tally);
-                        // and its tampered variants
-                        seg_stream_one(&hx, &f, &mut rng, &mut lean, &mut rep, &mut tally, &o);
-                    }
-                    _ => rep.spec_fail("C18:segment-roundtrip", "a positionally signed segment does not convert from RPC", json!({})),
+            let (ts, seg_id) = (rng_ts(&mut rng), rng.next() as u16);
+            match reference_signed(&mut rng, &entries, ts, seg_id, None) {
+                Some(hx) => {
+                    let all: Vec<usize> = (0..hx.seg.as_entries.len()).collect();
+                    check_positions("reference-signed", "entries signed by position with SignedMessage::sign", &hx, &hx.set, &hx.var(), &all, None, Some(&mut lean), &mut rep, &mut tally);
+                    // and its tampered variants
+                    seg_stream_one(&hx, &f, &mut rng, &mut lean, &mut rep, &mut tally, &o);
                 }
+                None => rep.spec_fail("C18:segment-roundtrip", "a positionally signed segment does not convert from RPC", json!({})),
             }
+        }
+    }
+    // --- segments whose signer sends segment-info bytes that are not the prost-canonical encoding of
+    //     (timestamp, segment id): every entry is signed over exactly those bytes and must validate; the full
+    //     tamper set is applied on top (review finding: the header bound by the code must be the received bytes)
+    for k in 0..args.scale(7, 70) {
+        let n = 1 + k % 4;
+        let entries: Vec<AsEntry> = (0..n).map(|i| gen_entry(&mut rng, 300 + i as u64)).collect();
+        let ts = if k % 7 == 4 { 0 } else { rng_ts(&mut rng) };
+        let seg_id = if k % 7 == 5 { 0 } else { rng.next() as u16 };
+        let encs = info_encodings(ts, seg_id);
+        let (what, bytes) = encs[k % encs.len()].clone();
+        rep.hit(&format!("reference-signed segment, info encoding: {what}"));
+        match reference_signed(&mut rng, &entries, ts, seg_id, Some(bytes.clone())) {
+            Some(hx) => {
+                let all: Vec<usize> = (0..n).collect();
+                check_positions("info-encoding", what, &hx, &hx.set, &hx.var(), &all, None, Some(&mut lean), &mut rep, &mut tally);
+                let o = SegOpts { exhaustive_flips: k < 2 && args.thorough(), sampled_flips_per_blob: args.scale(4, 16), model_every: 1 };
+                seg_stream_one(&hx, &f, &mut rng, &mut lean, &mut rep, &mut tally, &o);
+            }
+            None => rep.spec_fail("C18:segment-roundtrip", &format!("a segment with a valid protobuf segment info ({what}) does not convert from RPC"), json!({"info": hex(&bytes)})),
         }
     }
     rep.notes.push(format!("seg stream done at {:.1}s: {} validations, {} compared with the model", t0.elapsed().as_secs_f32(), tally.validations, tally.model_compared));
